@@ -130,6 +130,10 @@ func parseBitfieldOffset(spec string, width int) (offset int, valid bool) {
 			valid = false
 			return
 		}
+		if n < 0 {
+			valid = false
+			return
+		}
 		offset = int(n)
 	}
 	valid = true
@@ -168,6 +172,7 @@ func organizeBitfieldOp(tableObj *orderedMap, tableKey, valueKey string, opType 
 		var pe error
 		value, pe = strconv.ParseInt(opTable.mustGet(valueKey).(string), 10, 64)
 		if pe != nil {
+			errorText = "ERR value is not an integer or out of range"
 			valid = false
 			return
 		}
